@@ -192,7 +192,7 @@ pub fn vamm_cfg_strategy(d: u128, p: &CfgProfile) -> BoxedStrategy<VammCfg> {
     (
         (sel(prices), sel(depths), any::<u32>(), any::<u32>()),
         (sel(fee_tab.clone()), sel(fee_tab), sel(fluct_tab)),
-        sel(vec![86400u64, 3600, 86400, 3600, 5400, 1800, 9000, 43200]),
+        sel(vec![86400u64, 3600, 86400, 3600, 5400, 1800, 9000, 43200, 1_209_600]),
         (sel(cap_tab.clone()), sel(cap_tab)),
         sel(vec![100u128, 100, 101, 95, 105, 109, 91, 111, 89, 120, 80, 150, 50]),
         (0u8..10, 0u8..10),
@@ -240,7 +240,7 @@ pub fn world_cfg_strategy(p: &CfgProfile) -> BoxedStrategy<WorldCfg> {
         None => prop_oneof![2 => Just(false), 1 => Just(true)].boxed(),
     };
     let six = p.six_decimals;
-    (native_s, sel(vec![9u8, 6, 9, 6, 8, 10]))
+    (native_s, sel(vec![9u8, 6, 9, 6, 8, 10, 12]))
         .prop_flat_map(move |(native, dec)| {
             let decimals = if native || six { 6 } else { dec };
             let d = 10u128.pow(decimals as u32);
